@@ -1098,6 +1098,163 @@ def c14(rec):
 
 
 
+def c14gauss(rec):
+    """C14 (Gaussian sampling): g.sample(red, sample_inputs) must (a) be deterministic in the
+    random state, (b) carry g's inputs plus the sample inputs, (c) have, for every batch index,
+    kept point and particle, total mass over the sampled variables equal to g's marginal
+    (every particle carries the whole mass), and (d) be an affine image of the white noise whose
+    offset is the conditional mean and whose linear part A satisfies A A' = conditional
+    covariance (both computed by TLC over exact rationals, GaussOps!CondTable).  The noise
+    is controlled by replacing numpy.random.randn for the duration of one call."""
+    import itertools
+    from collections import OrderedDict
+    from funsor import ops as fops
+    from funsor.domains import Bint
+    from funsor.delta import Delta
+    from . import vals
+    sig = "leaf%s red{%s}" % (rec["sig"]["leaf"], ",".join(sorted(rec["sig"]["red"])))
+    out = []
+
+    def V(msg, st="mismatch", det=None):
+        return _verdict("C14", st, msg, det, sig=sig)
+
+    g = fbuild.Builder().build(rec["leaf"])
+    red = list(rec["red"])
+    rv = frozenset(red)
+    batch = rec["batch"]
+    keep = rec["keep"]
+    bsizes = [d["dt"] for _, d in batch]
+    bpoints = list(itertools.product(*[range(s) for s in bsizes]))
+    kpoints = list(itertools.product(*[[vals.arr_to_np(p) for p in pts] for pts in rec["pts"]]))
+    all_ok = all(cell["ok"] for row in rec["cond"] for cell in row)
+    rdoms = {n: d for n, d in rec["leaf"]["ins"]}
+    rsizes = [int(np.prod(rdoms[n]["sh"])) if rdoms[n]["sh"] else 1 for n in red]
+    dim = sum(rsizes)
+
+    def deltas(t, acc):
+        if isinstance(t, Delta):
+            for name, (point, ld) in t.terms:
+                acc[name] = point
+        for a in getattr(t, "_ast_values", ()):
+            if isinstance(a, Funsor):
+                deltas(a, acc)
+            elif isinstance(a, tuple):
+                for b in a:
+                    if isinstance(b, Funsor):
+                        deltas(b, acc)
+        return acc
+
+    def draw(sins, noise=None, seed=0):
+        if noise is None:
+            np.random.seed(seed)
+            return g.sample(rv, sins)
+        orig = np.random.randn
+        np.random.randn = lambda *shape: np.broadcast_to(np.asarray(noise, dtype=np.float64), shape).copy()
+        try:
+            return g.sample(rv, sins)
+        finally:
+            np.random.randn = orig
+
+    def point_vec(s, sins, bi, kp, particle):
+        """concatenated sampled point at one batch index / kept point / particle"""
+        pts = deltas(s, {})
+        if set(pts) != set(red):
+            raise LookupError("deltas over %s" % sorted(pts))
+        subs = {n: int(i) for (n, _), i in zip(batch, bi)}
+        for (n, d), v in zip(keep, kp):
+            subs[n] = Tensor(np.array(v, dtype=np.float64))
+        for (n, _), i in zip(sins.items(), particle):
+            subs[n] = int(i)
+        vec = []
+        for n in red:
+            p = pts[n]
+            e = p(**{k: v for k, v in subs.items() if k in p.inputs})
+            if not isinstance(e, (Tensor, Number)) or e.inputs:
+                raise LookupError("point of %s stays lazy: %s" % (n, type(e).__name__))
+            vec.extend(np.asarray(e.data, dtype=np.float64).reshape(-1).tolist())
+        return np.array(vec)
+
+    for sins in (OrderedDict(), OrderedDict([("p", Bint[3])])):
+        tag = "n%d" % len(sins)
+        nparts = int(np.prod([d.dtype for d in sins.values()])) if sins else 1
+        particles = list(itertools.product(*[range(d.dtype) for d in sins.values()]))
+        try:
+            s1 = draw(sins, seed=1)
+            s2 = draw(sins, seed=1)
+        except Exception as e:  # noqa
+            if all_ok:
+                out.append(V("gaussian_sample_incomplete_on_full_rank:" + tag, det="%s: %s" % (type(e).__name__, str(e)[:100])))
+            else:
+                out.append(V("gaussian_sample:" + type(e).__name__, st="declined_error"))
+            continue
+        if not all_ok:
+            out.append(V("gaussian_sample:singular_block_sampled", st="declined_lazy"))
+            continue
+        # (b) inputs
+        want_inputs = set(g.inputs) | set(sins)
+        if set(s1.inputs) != want_inputs:
+            out.append(V("gaussian_sample_inputs:" + tag, det={"got": sorted(s1.inputs), "want": sorted(want_inputs)}))
+            continue
+        # (a) determinism and (c) mass
+        bad = None
+        try:
+            m1 = s1.reduce(fops.logaddexp, rv)
+            for b_ix, bi in enumerate(bpoints):
+                for k_ix, kp in enumerate(kpoints):
+                    for part in particles:
+                        if not np.allclose(point_vec(s1, sins, bi, kp, part), point_vec(s2, sins, bi, kp, part), rtol=0, atol=0):
+                            bad = ("gaussian_sample_not_deterministic:" + tag, {"batch": list(bi)})
+                        subs = {n: int(i) for (n, _), i in zip(batch, bi)}
+                        for (n, d), v in zip(keep, kp):
+                            subs[n] = Tensor(np.array(v, dtype=np.float64))
+                        for (n, _), i in zip(sins.items(), part):
+                            subs[n] = int(i)
+                        subs = {k: v for k, v in subs.items() if k in m1.inputs}
+                        e = m1(**subs) if subs else m1
+                        if not isinstance(e, (Tensor, Number)) or e.inputs:
+                            bad = bad or ("gaussian_sample_mass_lazy:" + tag, type(e).__name__)
+                            continue
+                        want = _cv(rec["marg"][b_ix][k_ix]["val"])     # every particle carries the whole mass
+                        got = float(np.asarray(e.data))
+                        if not vals.close(got, want):
+                            bad = ("gaussian_sample_mass:" + tag, {"batch": list(bi), "particle": list(part), "got": got, "want": want})
+        except LookupError as e:
+            out.append(V("gaussian_sample:unexpected_form", st="declined_lazy", det=str(e)[:100]))
+            continue
+        except Exception as e:  # noqa
+            bad = ("gaussian_sample_mass_failed:" + tag, "%s: %s" % (type(e).__name__, str(e)[:100]))
+        out.append(V(bad[0], det=bad[1]) if bad else V(None, st="agree"))
+        # (d) affine in the noise with TLC's conditional mean and covariance
+        bad = None
+        try:
+            s0 = draw(sins, noise=np.zeros(dim))
+            sE = [draw(sins, noise=np.eye(dim)[i]) for i in range(dim)]
+            mix = np.arange(1, dim + 1, dtype=np.float64) * np.array([(-1.0) ** i for i in range(dim)])
+            sM = draw(sins, noise=mix)
+            for b_ix, bi in enumerate(bpoints):
+                for k_ix, kp in enumerate(kpoints):
+                    cell = rec["cond"][b_ix][k_ix]
+                    want_mean = np.array([vals.scalar_to_float(x) for x in cell["mean"]])
+                    want_cov = np.array([[vals.scalar_to_float(x) for x in row] for row in cell["cov"]])
+                    part = particles[-1]
+                    p0 = point_vec(s0, sins, bi, kp, part)
+                    A = np.stack([point_vec(sE[i], sins, bi, kp, part) - p0 for i in range(dim)], axis=1)
+                    pm = point_vec(sM, sins, bi, kp, part)
+                    if not vals.close(p0, want_mean):
+                        bad = ("gaussian_sample_mean:" + tag, {"batch": list(bi), "got": p0.tolist(), "want": want_mean.tolist()})
+                    elif not vals.close(A @ A.T, want_cov):
+                        bad = ("gaussian_sample_covariance:" + tag, {"batch": list(bi), "got": (A @ A.T).tolist(), "want": want_cov.tolist()})
+                    elif not vals.close(pm, p0 + A @ mix):
+                        bad = ("gaussian_sample_not_affine:" + tag, {"batch": list(bi)})
+        except LookupError as e:
+            out.append(V("gaussian_sample:unexpected_form", st="declined_lazy", det=str(e)[:100]))
+            continue
+        except Exception as e:  # noqa
+            bad = ("gaussian_sample_affine_failed:" + tag, "%s: %s" % (type(e).__name__, str(e)[:100]))
+        out.append(V(bad[0], det=bad[1]) if bad else V(None, st="agree"))
+    return out
+
+
 def c14delta(rec):
     """C14 (Delta semantics): a Delta evaluates to its log-density at the point and to minus
     infinity elsewhere; (Delta + f) reduced over the Delta's variable evaluates f at the
